@@ -118,7 +118,7 @@ PROPS = {
                 dict(module="MC_SM2Enc", cfg="MC_SM2Enc_q_prefix", expect="violation", about="negative: any prefix byte read as uncompressed must be refuted"),
                 dict(module="MC_SM2Enc", cfg="MC_SM2Enc_q_hash", expect="violation", about="negative: decryption without the C3 comparison must be refuted")],
         stages=[dict(suite="sm2dec", nda="validate", trace="TraceSM2", plan=dict(module="PlanSM2Enc", cfg_quick="PlanSM2Enc_q", cfg_thorough="PlanSM2Enc_t"),
-                     required_classes={"both": ["sm2.decrypt/untouched", "sm2.decrypt/flip-c1", "sm2.decrypt/flip-body", "sm2.decrypt/truncated",
+                     required_classes={"both": ["sm2.decrypt/negate-c1", "sm2.decrypt/untouched", "sm2.decrypt/flip-c1", "sm2.decrypt/flip-body", "sm2.decrypt/truncated",
                                                 "sm2.decrypt/offcurve", "sm2.decrypt/retag", "sm2.decrypt/retag-junk-y", "sm2.decrypt/valid-window-y2", "sm2.decrypt/comp-valid-window-y2", "sm2.decrypt/valid-window-x2+a", "codec.asn1_dec/asn1.dec.valid-window-y2", "sm2.decrypt/x+p", "sm2.decrypt/nonresidue", "sm2.decrypt/valid-small-x", "codec.asn1_dec/asn1.dec.offcurve", "codec.asn1_dec/asn1.dec.valid-small-x", "sm2.decrypt/fold-c3", "sm2.decrypt/c1-zero-forged", "codec.asn1_dec/asn1.dec.c1-zero-forged"]})],
         assumptions=["SM2.tla transcribes GB/T 32918.4 and the SEC1 point decoding rules"],
     ),
@@ -154,7 +154,7 @@ PROPS = {
                 dict(module="MC_DerInt", cfg="MC_DerInt_onezero", expect="violation", workers=2, about="negative: restoring at most one dropped zero digit must be refuted"),
                 dict(module="AnchorSM2Codec", anchor=True, about="SM2Codec.tla reproduces the OpenSSL-made SPKI/PKCS#8 DER+PEM and decodes/re-encodes/decrypts the 18 OpenSSL GM/T 0009 ciphertexts")],
         stages=[dict(suite="sm2codec", nda="validate", trace="TraceSM2",
-                     required_classes={"both": ["codec.encode/encode.plain", "codec.decode/decode.pk_bytes.roundtrip", "codec.decode/decode.pkcs8_der.compressed-pub", "codec.decode/decode.pkcs8_der.no-pub", "codec.decode/decode.spki_der.compressed-pub", "codec.decode/decode.pkcs8_pem.compressed-pub", "codec.decode/decode.spki_pem.compressed-pub", "codec.decode/decode.spki_pem.openssl", "codec.decode/decode.pkcs8_pem.openssl",
+                     required_classes={"both": ["codec.decode/decode.pk_hex.odd-digits", "codec.decode/decode.sk_hex.odd-digits", "codec.decode/decode.pk_hex.uppercase", "codec.encode/encode.plain", "codec.decode/decode.pk_bytes.roundtrip", "codec.decode/decode.pkcs8_der.compressed-pub", "codec.decode/decode.pkcs8_der.no-pub", "codec.decode/decode.spki_der.compressed-pub", "codec.decode/decode.pkcs8_pem.compressed-pub", "codec.decode/decode.spki_pem.compressed-pub", "codec.decode/decode.spki_pem.openssl", "codec.decode/decode.pkcs8_pem.openssl",
                                                 "codec.decode/decode.pk_bytes.off-curve", "codec.asn1_enc/asn1.enc.x-lead0x1", "codec.asn1_enc/asn1.enc.y-lead0x1", "codec.asn1_enc/asn1.enc.x-lead0x2", "codec.asn1_enc/asn1.enc.y-lead0x2", "codec.asn1_dec/asn1.dec.openssl"]})],
         assumptions=["SM2Codec.tla: SEC1 / hex / SPKI / PKCS#8 templates / PEM / GM/T 0009 DER, anchored by OpenSSL-made documents (committed corpus, not a live OpenSSL)"],
     ),
@@ -175,7 +175,7 @@ PROPS = {
                 dict(module="MC_JacobianImpl", cfg="MC_JacobianImpl_mulneg", expect="violation", about="negative: window multiplication over the unfixed addition must be refuted"),
                 dict(module="MC_Mont", about="register-level Montgomery mul / add / sub with R = 2^7: every prime in (64,128) x every operand pair")],
         stages=[dict(suite="sm2ec", nda="compare", trace="TraceSM2", plan=dict(module="PlanField", cfg_quick="PlanField", cfg_thorough="PlanField_t"),
-                     required_classes={"both": ["fp.op/fp.mul.planned-window", "fn.op/fn.mul.planned-window", "ec.add/add.P=Q", "ec.add/add.P=Q.diffZ", "ec.add/add.P=-Q", "ec.add/add.O+Q", "ec.add/add.generic", "ec.add/add.same-y", "ec.add/add.O+Q.otherO", "ec.add/add.P+O.otherO", "ec.add/add.O+O.otherO", "ec.smul/smul.k=n", "ec.smul/smul.k>n",
+                     required_classes={"both": ["ec.valid_affine/valid-affine.x=0", "ec.valid_affine/valid-affine.on", "ec.valid_affine/valid-affine.off", "fp.op/fp.mul.planned-window", "fn.op/fn.mul.planned-window", "ec.add/add.P=Q", "ec.add/add.P=Q.diffZ", "ec.add/add.P=-Q", "ec.add/add.O+Q", "ec.add/add.generic", "ec.add/add.same-y", "ec.add/add.O+Q.otherO", "ec.add/add.P+O.otherO", "ec.add/add.O+O.otherO", "ec.smul/smul.k=n", "ec.smul/smul.k>n",
                                                 "ec.smul/smul.k=0", "ec.gmul/gmul.k<n", "ec.valid/valid.off", "ec.table/table.entry", "ec.table/table.row-base",
                                                 "fp.op/fp.mul.near-modulus", "fp.op/fp.add.near-2^256-m", "fn.op/fn.add.near-modulus"]})],
         assumptions=["Weierstrass.tla is the affine group law; verdicts are on denotations (X/Z^2, Y/Z^3 of the Montgomery-decoded coordinates)", "BigNat Java override (cross-checked by MC_BigNat)"],
@@ -200,7 +200,7 @@ PROPS = {
                 dict(module="MC_SM9Sig", about="exponent model Z_7 with lazily sampled random oracle and single-field tampering: honest => accept; h out of range => error; accepted forgery => coincidence"),
                 dict(module="MC_SM9Sig", cfg="MC_SM9Sig_neg", expect="violation", about="negative: the forgery invariant without the coincidence classes must be refuted (invariant is tight)")],
         stages=[dict(suite="sm9sig", nda="validate", trace="TraceSM9", plan=dict(module="PlanSM9", cfg_quick="PlanSM9_q", cfg_thorough="PlanSM9_t"), timeout=3400,
-                     required_classes={"both": ["sm9.sign/sign.fixed-r", "sm9.sign/sign.free-r", "sm9.verify/verify.untouched", "sm9.verify/verify.spec-made", "sm9.verify/verify.h-range",
+                     required_classes={"both": ["sm9.sign/sign.no-key", "sm9.sign/sign.fixed-r", "sm9.sign/sign.free-r", "sm9.verify/verify.untouched", "sm9.verify/verify.spec-made", "sm9.verify/verify.h-range",
                                                 "sm9.verify/verify.S-bitflip", "sm9.verify/verify.altered-master-key"]})],
         assumptions=["SM9.tla transcribes GM/T 0044.2 (Annex A signature as ASSUME); derived evaluator g = G0^ks for honest events"],
     ),
@@ -215,7 +215,7 @@ PROPS = {
                 dict(module="MC_SM9Proto", cfg="MC_SM9Proto_enc_nomac", expect="violation", about="negative: decryption without the C3 comparison must be refuted"),
                 dict(module="MC_SM9Proto", cfg="MC_SM9Proto_enc_nocurve", expect="violation", about="negative: decryption without the on-curve check of C1 must be refuted")],
         stages=[dict(suite="sm9enc", nda="validate", trace="TraceSM9", plan=dict(module="PlanSM9", cfg_quick="PlanSM9_q", cfg_thorough="PlanSM9_t"), timeout=3400,
-                     required_classes={"both": ["sm9.encrypt/encrypt.short", "sm9.encrypt/encrypt.len%32=0", "sm9.decrypt/decrypt.none", "sm9.decrypt/decrypt.spec-made", "sm9.decrypt/decrypt.flip-c2",
+                     required_classes={"both": ["sm9.decrypt/decrypt.c1-x+p", "sm9.decrypt/decrypt.c1-y+p", "sm9.encrypt/encrypt.short", "sm9.encrypt/encrypt.len%32=0", "sm9.decrypt/decrypt.none", "sm9.decrypt/decrypt.spec-made", "sm9.decrypt/decrypt.flip-c2",
                                                 "sm9.decrypt/decrypt.flip-c1", "sm9.decrypt/decrypt.truncated", "sm9.decrypt/decrypt.c1-offcurve", "sm9.decrypt/decrypt.c1-zero-forged", "sm9.decrypt/decrypt.c1-offcurve-consistent", "sm9.decrypt/decrypt.fold-c3"]})],
         assumptions=["SM9.tla transcribes GM/T 0044.4 with MAC(K2,Z) = SM3(Z||K2) (Annex ciphertext as ASSUME)"],
     ),
@@ -266,7 +266,7 @@ PROPS = {
         models=[dict(module="MC_SignLive", about="toy group: signing terminates (liveness under a fair source) for every key in [1, n-2] and every digest; signatures in range"),
                 dict(module="MC_SignLive", cfg="MC_SignLive_neg", expect="violation", about="negative: a constructor admitting d = n-1 must yield the non-terminating lasso")],
         stages=[dict(suite="api", nda="validate", trace="TraceApi",
-                     required_classes={"both": ["sm9.hash2/sm9.hash2.long.len>=98", "sm9.sign_msg/sm9.sign_msg.ladder.len>=98", "sm9.verify_msg/sm9.verify_msg.ladder.len>=98", "sm2.sign_msg/sm2.sign_msg.ladder.len>=98", "sm2.verify/sm2.verify.content.len0", "sm2.decrypt.uncomp/sm2.decrypt.uncomp.content.len<98", "sm4.new/sm4.new.content.len<16", "sm4.cbc_dec/sm4.cbc_dec.content.len0",
+                     required_classes={"both": ["sm9.verify_s_unreduced/sm9.verify_s_unreduced.degenerate.len0", "sm9.encrypt_q_infinity/sm9.encrypt_q_infinity.degenerate.len0", "sm9.kx1b_r_infinity/sm9.kx1b_r_infinity.degenerate.len0", "sm9.hash2/sm9.hash2.long.len>=98", "sm9.sign_msg/sm9.sign_msg.ladder.len>=98", "sm9.verify_msg/sm9.verify_msg.ladder.len>=98", "sm2.sign_msg/sm2.sign_msg.ladder.len>=98", "sm2.verify/sm2.verify.content.len0", "sm2.decrypt.uncomp/sm2.decrypt.uncomp.content.len<98", "sm4.new/sm4.new.content.len<16", "sm4.cbc_dec/sm4.cbc_dec.content.len0",
                                                 "sm9.decrypt/sm9.decrypt.content.len<98", "sm9.from_hash/sm9.from_hash.content.len<40", "sm9.from_hash/sm9.from_hash.content.len<98", "sm2.pkcs8_der/sm2.pkcs8_der.corrupted.len>=98", "sm2.decrypt_asn1/sm2.decrypt_asn1.der-shape.len<98", "sm2.decrypt_asn1/sm2.decrypt_asn1.corrupted.len>=98",
                                                 "sm2.sign_with_key/sm2.sign_with_key.d=n-1.len<33", "sm9.verify/sm9.verify.arbitrary.len<33"]})],
         assumptions=["Api.tla: total outcome function; length rules of the standards"],
